@@ -1272,6 +1272,11 @@ impl MutableArchive {
 
     /// Write tables for V3+ archives with correct ordering
     fn write_tables_v3_plus(&mut self) -> Result<()> {
+        // The tables go behind everything the archive holds. The stream position is
+        // wherever the last read or write ended (reading the (listfile) leaves it in
+        // the middle of the file data), so it says nothing about the end of the data.
+        let current_pos = self.get_archive_end_offset()?;
+
         let hash_table = self
             .hash_table
             .as_ref()
@@ -1281,9 +1286,8 @@ impl MutableArchive {
             .as_ref()
             .ok_or_else(|| Error::invalid_format("Block table not loaded for V3+ table write"))?;
 
-        // Find the end of file data to start writing tables
-        let current_pos = self.file.stream_position()?;
         let archive_offset = self.archive.archive_offset();
+        self.file.seek(SeekFrom::Start(current_pos))?;
 
         // Write HET table first (correct order for V3+)
         let het_pos = current_pos - archive_offset;
@@ -1341,6 +1345,10 @@ impl MutableArchive {
         for &value in &u32_buffer {
             self.file.write_all(&value.to_le_bytes())?;
         }
+
+        // Files added after this flush must not land on the tables just written
+        let tables_end = self.file.stream_position()?;
+        self.next_file_offset = Some((tables_end + 511) & !511);
 
         // Store all the updated positions for header update
         self.updated_het_pos = Some(het_pos);
